@@ -36,7 +36,9 @@ META = {
     'level_note': (
         'Trusted: harness, R-PROG. Programs may start with a line numbered 0 that is the target of GOTO/GOSUB/THEN/ELSE/ON lists/RESTORE/RUN/'
         'LIST (and references to a missing line 0 are generated); not pinned and therefore not generated: 0 after RESUME / ERL= / RETURN / '
-        'ON ERROR GOTO as a line reference (ON ERROR GOTO 0 itself is generated and must stay 0), RENUM on an empty program, a start line above every line '
+        'ON ERROR GOTO as a line reference (ON ERROR GOTO 0 itself is generated and must stay 0; these contexts never name the first line '
+        'either, which RENUM 0 would number 0). RENUM arguments take explicit boundary values in every position (0, 1, 65529, omitted; increment 0 '
+        'must be refused; new number 0 is a number, not a default). Not generated: RENUM on an empty program, a start line above every line '
         '(either outcome accepted, program must be unchanged), references whose digits are followed by arithmetic. The line named in an '
         '"Undefined line N in M" report may be the old or the new number of the containing line (all reports of one RENUM consistently). '
         'Behaviour equivalence is only demanded when no missing target coincides with a new line number. Only one kind of event trap (KEY or TIMER) '
@@ -50,7 +52,8 @@ META = {
     'require_counters': {'any': ['renum_accepted', 'renum_rejected', 'rejected_untouched_checked', 'missing_reported_seen',
                                  'trap_error_handler_reached', 'trap_event_handler_reached', 'trap_before_range_seen',
                                  'trap_inside_range_seen', 'trap_defined_while_off_handler_reached_after_renum', 'behaviour_compared', 'image_compared',
-                                 'ref_to_line_0', 'ref_missing_line_0', 'ref_on_error_0',
+                                 'ref_to_line_0', 'ref_missing_line_0', 'ref_on_error_0', 'renum_new_0_accepted', 'renum_new_0_rejected',
+                                 'renum_step_0_rejected', 'renum_old_0_explicit',
                                  'ref_goto', 'ref_gosub', 'ref_then', 'ref_then_else', 'ref_on_goto', 'ref_on_gosub', 'ref_restore',
                                  'ref_run', 'ref_resume', 'ref_erl_eq', 'ref_on_error', 'ref_on_key', 'ref_on_timer']},
     'timeout': {'quick': 900, 'thorough': 7200},
@@ -156,8 +159,10 @@ def run_case(res, case, inv):
         if mp is not None:
             # image of the expected listing typed into a fresh session (boxes must not nest: one virtual clock)
             exp = [b'%d %s' % (mp.get(n, n), rp.render(segs, mp)) for n, segs in prog['lines']]
+            # (a line that RENUM moves TO number 0 has no blank stored after its number; typed as `0 text` it would keep one)
+            typed = [(b'0%s' % rp.render(segs, mp) if (mp.get(n, n) == 0 and n != 0) else l) for l, (n, segs) in zip(exp, prog['lines'])]
             with harness.Box(budget=5000) as b2:
-                b2.enter(exp)
+                b2.enter(typed)
                 b2.ex(b'SAVE "IMG2"', 5000)
                 img2 = pg.read_file(b2, 'IMG2.BAS')
             img2_dev = None
@@ -183,6 +188,10 @@ def run_case(res, case, inv):
             img1 = pg.read_file(b1, 'IMG1.BAS')
             if code:
                 res.count('renum_rejected')
+                if new == 0:
+                    res.count('renum_new_0_rejected')
+                if inc == 0:
+                    res.count('renum_step_0_rejected')
                 if mp is not None and moved:
                     viol('renum:valid-arguments-rejected', 'model map exists but RENUM gave %r' % out[:100])
                     return
@@ -200,6 +209,10 @@ def run_case(res, case, inv):
                     viol('renum:impossible-renumbering-accepted', 'RENUM accepted, output %r; listing now %r' % (out[:80], (listed or [])[:3]))
                     return
                 res.count('renum_accepted')
+                if new == 0:
+                    res.count('renum_new_0_accepted')
+                if old == 0:
+                    res.count('renum_old_0_explicit')
                 eff = mp
                 changed = any(k != v for k, v in mp.items())
                 if changed:
@@ -377,6 +390,15 @@ def directed_cases():
         prog = {'lines': lines, 'cont': 60, 'missing': [], 'handlers': h}
         for args in ([None, None, None], [100, 20, None], [100, 40, None], [1000, None, 7], [15, 40, None]):
             cases.append({'prog': prog, 'args': args, 'mode': 'trap', 'budget': 300, 'late': True})
+    # RENUM argument forms with explicit boundary values in every position (0 is a value, not "omitted"; increment 0 is illegal)
+    lines = [L(20, b'C=C+1:PRINT "t1;";:IF C>3 THEN ', R(50)), L(30, b'PRINT "t2;";:GOSUB ', R(60)), L(40, b'PRINT "t3;";:GOTO ', R(20)),
+             L(50, b'PRINT "end;":END'), L(60, b'PRINT "s1;";:RETURN')]
+    prog = {'lines': lines, 'cont': None, 'missing': [], 'handlers': {}}
+    for args in ([0, None, None], [0, None, 1], [0, 0, None], [0, 0, 0], [0, 30, None], [0, 20, 5], [0, 60, None], [None, 0, None], [None, 0, 1],
+                 [None, None, 0], [10, 0, 0], [1, None, None], [1, None, 1], [1, 1, 1], [1, 30, 1], [21, 30, 1], [65529, None, None], [65529, 60, None],
+                 [65529, 60, 65529], [None, 65529, None], [None, None, 1], [None, None, 65529], [65525, None, 1], [65526, None, 1], [0, None, 16382],
+                 [0, None, 16383], [None, 30, None], [None, 60, None], [None, 20, None]):
+        cases.append({'prog': prog, 'args': args, 'mode': 'run', 'budget': 200})
     # line number 0 as a target of every kind that may name it, ON ERROR GOTO 0 next to it (not a reference), and references to a
     # MISSING line 0 (must be kept and reported)
     lines = [
@@ -393,9 +415,7 @@ def directed_cases():
         L(95, b'END:GOSUB ', R(0), b':RUN ', R(0), b':ON X GOSUB ', R(0), b',', R(50), b':LIST ', R(0), b'-', R(10)),
     ]
     prog = {'lines': lines, 'cont': None, 'missing': [], 'handlers': {}}
-    for args in ([None, None, None], [100, None, 5], [1, None, 1], [500, 10, None], [7, 5, 1], [0, None, 10]):
-        if args[0] == 0:
-            continue
+    for args in ([None, None, None], [100, None, 5], [1, None, 1], [500, 10, None], [7, 5, 1], [0, None, 10], [0, None, None], [0, 0, 1]):
         cases.append({'prog': prog, 'args': args, 'mode': 'run', 'budget': 300})
     lines = [
         L(10, b'C=C+1:PRINT "t10;";:ON ERROR GOTO 0:IF C>2 THEN ', R(40)),
